@@ -103,7 +103,9 @@ def run_longdouble(cases, res):
         if Fraction(int(num), int(den)) != v + d: continue      # (the sum is not exact in 64 bits)
         cplx = c['carrier'].startswith('c')       # extended-precision COMPLEX carriers (np.clongdouble): the value is ld - 1j*ld, each part on its own
         cld = np.array([ld], dtype=np.clongdouble)[0] * (1 - 1j) if cplx else None
-        val = {'scalar': ld, 'arr0d': np.array(ld), 'arr1': np.array([ld]), 'list': [ld], 'cscalar': cld, 'carr1': np.array([cld] if cplx else [0]), 'clist': [cld]}[c['carrier']]
+        val = {'scalar': ld, 'arr0d': np.array(ld), 'arr1': np.array([ld]), 'list': [ld], 'cscalar': cld, 'carr1': np.array([cld] if cplx else [0]), 'clist': [cld],
+               'arr_huge': np.array([ld, np.longdouble(10) ** 30])}[c['carrier']]       # (next to a huge neighbour - saturate, n_frac >= 0 - the array takes the Python-object path)
+        if c['carrier'] == 'arr_huge' and (c['o'] != 'saturate' or c['nf'] < 0): continue
         try:
             if c['route'] == 'ctor': x = fx.Fxp(val, c['s'], c['nw'], c['nf'], rounding=c['r'], overflow=c['o'])
             else:
@@ -125,7 +127,7 @@ def run_longdouble(cases, res):
             continue
         if got[0] != want:
             res.fail(c, 'C01: a longdouble value is not stored as OVERFLOW(ROUND(v*2^n_frac)) (the carrier was cut to a double first?)', expected=want, got=got[0]); continue
-        if got[1] != wf:
+        if got[1] != wf and c['carrier'] != 'arr_huge':
             res.fail(c, 'C01: status flags after storing a longdouble value are not those of its exact quantization', expected=wf, got=got[1])
 
 def run_bool(cases, res):
@@ -265,7 +267,7 @@ def shard(shard, nshards, rng, tier, extra):
         e = math.floor(math.log2(abs(float(v))))
         d = Fraction(rng.choice([1, -1, 3, -3]), 1) * Fraction(2) ** (e - rng.choice([60, 61, 62]))
         cases.append({'s': s, 'nw': nw, 'nf': nf, 'r': rng.choice(RMODES), 'o': rng.choice(OMODES), 'v': str(Fraction(v)), 'd': str(d),
-                      'carrier': rng.choice(['scalar', 'scalar', 'arr0d', 'arr1', 'list', 'cscalar', 'carr1', 'clist']), 'route': rng.choice(['ctor', 'call', 'set_val'])})
+                      'carrier': rng.choice(['scalar', 'scalar', 'arr0d', 'arr1', 'list', 'cscalar', 'carr1', 'clist', 'arr_huge', 'arr_huge']), 'route': rng.choice(['ctor', 'call', 'set_val'])})
     run_longdouble(cases, res)
     cases = []
     for _ in range((240 if tier == 'quick' else 2000) // nshards + 1):
